@@ -519,6 +519,13 @@ func (s *Seq) judge(pre, post *View, H uint64) {
 		if g.Type != rec.Type || !bytes.Equal(g.Account, rec.Account) || int(g.Status) != rec.Status || g.ApplyHeight != rec.ApplyHeight || !bytes.Equal(g.Id, rec.ID) {
 			s.fail("C20:lookup:by-id-disagrees", fmt.Sprintf("GetMiner(0x%s) = %s, reference %s", id, describe(g), rec.describe()))
 		}
+		r.Count("pubkey_lookups_compared", 2)
+		if !bytes.Equal(g.PublicKey, rec.PK) || !bytes.Equal(g.VrfPublicKey, rec.VRF) {
+			s.fail("C20:lookup:by-id-public-keys-disagree", fmt.Sprintf("GetMiner(0x%s) carries public key 0x%s / vrf key 0x%s, the accepted apply gave 0x%s / 0x%s", id, hx(g.PublicKey), hx(g.VrfPublicKey), hx(rec.PK), hx(rec.VRF)))
+		}
+		if got := post.pk[id]; !bytes.Equal(got, g.PublicKey) {
+			s.fail("C20:lookup:pubkey-by-id-disagrees-with-record", fmt.Sprintf("GetPubkey(0x%s) = 0x%s but the registry record of the same id has public key 0x%s", id, hx(got), hx(g.PublicKey)))
+		}
 		switch {
 		case len(its) == 0:
 			s.fail("C20:lookup:iterator-misses-record", fmt.Sprintf("the registry iterator does not yield miner 0x%s; GetMiner = %s", id, describe(g)))
